@@ -280,15 +280,24 @@ func (batch *Batch) readMessage(
 			//   to MaxBytes truncation
 			// - `batch.lastOffset` to ensure that the message format contains
 			//   `lastOffset`
-			if errors.Is(batch.err, io.EOF) && batch.msgs.lengthRemain == 0 && batch.lastOffset != -1 {
+			if errors.Is(batch.err, io.EOF) {
 				// Log compaction can create batches that end with compacted
 				// records so the normal strategy that increments the "next"
 				// offset as records are read doesn't work as the compacted
-				// records are "missing" and never get "read".
+				// records are "missing" and never get "read". It can also
+				// leave batches without any record.
 				//
 				// In order to reliably reach the next non-compacted offset we
-				// jump past the saved lastOffset.
-				batch.offset = batch.lastOffset + 1
+				// jump past the saved lastOffset, or past the last batch that
+				// had no records (those are never truncated: their header was
+				// read). The offset never moves backwards.
+				lastOffset := batch.msgs.emptyLastOffset
+				if batch.msgs.lengthRemain == 0 && batch.lastOffset > lastOffset {
+					lastOffset = batch.lastOffset
+				}
+				if lastOffset >= batch.offset {
+					batch.offset = lastOffset + 1
+				}
 			}
 		}
 	default:
